@@ -851,6 +851,19 @@ void verif::verif_case(Rng & rng, long idx, const std::string & tier) {
                    emit_thompson_shift("ThompsonSamplingPolicy", nn, c, 6,
                        [&]() { return std::make_unique<B::ThompsonSamplingPolicy>(e); }, [&]() { return std::make_unique<B::ThompsonSamplingPolicy>(e2); });
                }
+               if (reg != 3) {   // TopTwo: same two histories (its selection only sees the inner Thompson answers and its own coin)
+                   Rng r5 = r1, r6 = r1;
+                   double c = reg == 2 ? -2 * centre : (double)rng.range(-24, 24);
+                   auto ea = makeExp(r5, nn, centre, spread, false, 0.0, muStep), eb = makeExp(r6, nn, centre, spread, false, c, muStep);
+                   emit_thompson_shift("TopTwoThompsonSamplingPolicy", nn, c, 6,
+                       [&]() { return std::make_unique<B::TopTwoThompsonSamplingPolicy>(ea, 0.5); }, [&]() { return std::make_unique<B::TopTwoThompsonSamplingPolicy>(eb, 0.5); });
+                   // T3C: two records per arm, dyadic rewards — the running means are exact on both sides, so equal transportation costs
+                   // stay equal after the shift (the tie coins are then consumed identically)
+                   B::Experience ta(nn), tb(nn);
+                   for (size_t a = 0; a < nn; ++a) for (int k = 0; k < 2; ++k) { double r = centre + spread * (double)rng.range(-8, 8); ta.record(a, r); tb.record(a, r + c); }
+                   emit_thompson_shift("T3CPolicy", nn, c, 6,
+                       [&]() { return std::make_unique<B::T3CPolicy>(ta, 0.5, 1.0); }, [&]() { return std::make_unique<B::T3CPolicy>(tb, 0.5, 1.0); });
+               }
                {   // TopTwo / T3C kernels (same ratio of arm differences to spread as before: keeps TopTwo's rejection loop short), ties included
                    Rng r4 = rng; auto ek = makeExp(r4, nn, reg >= 2 ? centre : 12.0, spread, rng.coin(1, 5), 0.0, muStep);
                    if (rng.coin(1, 3)) { B::Experience et(nn); for (size_t a = 0; a < nn; ++a) { et.record(a, a == 0 ? 2.0 : 1.0); et.record(a, a == 0 ? 2.5 : 1.5); } ek = et; }   // equal challengers: tie coins
